@@ -84,10 +84,10 @@ RootAttrs(ak) ==
                    A("a5", T("LOGICAL"), TRUE), A("a6", T("BINARY"), TRUE), A("a7", T("NUMBER"), FALSE), A("a8", T("ilist"), TRUE),
                    A("a9", T("STRING"), FALSE), A("a10", T("REAL"), FALSE), A("a11", T("lab"), FALSE), A("a12", T("npick"), TRUE)>>
 Ent(n, sup, abs, sx, attrs) == [name |-> n, supers |-> sup, abstract |-> abs, sexpr |-> sx, attrs |-> attrs,
-                                derive |-> <<>>, inverse |-> <<>>, uniq |-> <<>>, where |-> <<>>]
+                                derive |-> <<>>, inverse |-> <<>>, uniq |-> <<>>, where |-> <<>>, redecl |-> <<>>]
 Supers(c, e) ==
   CASE c.inh \in {"none", "single"} -> <<>>
-    [] c.inh = "chain"   -> IF e = "e2" THEN <<"e1">> ELSE IF e = "e3" THEN <<"e2">> ELSE <<>>
+    [] c.inh \in {"chain", "redecl"} -> IF e = "e2" THEN <<"e1">> ELSE IF e = "e3" THEN <<"e2">> ELSE <<>>
     [] c.inh = "multi"   -> IF e = "e2" THEN <<"e1">> ELSE IF e = "e3" THEN <<"e1">> ELSE IF e = "e4" THEN <<"e2", "e3">> ELSE <<>>
     [] c.inh = "fan"     -> IF e \in {"e2", "e3"} THEN <<"e1">> ELSE <<>>
     \* two separate trees joined at the bottom: e2 below e1, e3 below r2, e4 below both; h refers to both roots
@@ -96,7 +96,7 @@ Supers(c, e) ==
     [] c.inh = "nestedmi" -> IF e = "e2" THEN <<"e1">> ELSE IF e = "e3" THEN <<"r2", "r3">> ELSE IF e = "e4" THEN <<"e2", "e3">>
                              ELSE IF e = "e5" THEN <<"e4">> ELSE <<>>
 RootExpr(c) ==
-  IF c.sx = "none" \/ c.inh \in {"none", "single", "chain", "tworoots", "nestedmi"} THEN NoTree
+  IF c.sx = "none" \/ c.inh \in {"none", "single", "chain", "redecl", "tworoots", "nestedmi"} THEN NoTree
   ELSE Op(c.sx, <<Leaf("e2"), Leaf("e3")>>)
 Names(c) == IF c.inh = "multi" THEN <<"e1", "e2", "e3", "e4">>
             ELSE IF c.inh = "tworoots" THEN <<"e1", "e2", "r2", "e3", "e4", "h">>
@@ -109,12 +109,16 @@ WithRules(c, e) ==
                                        !.uniq = <<[label |-> "ur1", attrs |-> <<"a1">>]>>,
                                        !.where = <<[label |-> "wr1", expr |-> "a1 > 0"]>>]
   ELSE e
+(* shape "redecl": the chain e1 <- e2 <- e3 in which e3 redeclares the reference attribute it inherits from e2 with a  *)
+(* narrower entity type (SELF\e2.b1 : e2) and declares an attribute of its own after it.  In an exchange file the    *)
+(* value still stands at the inherited position; nothing is added to the parameter list.                              *)
+WithRedecl(c, e) == IF c.inh = "redecl" /\ e.name = "e3" THEN [e EXCEPT !.redecl = <<[name |-> "b1", of |-> "e2", ty |-> T("e2")]>>] ELSE e
 Valid0(c) ==
   [name |-> "m",
    types |-> Types(c) \o ExtraTypes(c.ts),
    ents |-> [i \in 1..Len(Names(c)) |->
                LET n == Names(c)[i] IN
-               WithRules(c, Ent(n, Supers(c, n), (n = "e1" /\ c.abs /\ c.inh \notin {"none"}), IF n = "e1" THEN RootExpr(c) ELSE NoTree,
+               WithRedecl(c, WithRules(c, Ent(n, Supers(c, n), (n = "e1" /\ c.abs /\ c.inh \notin {"none"}), IF n = "e1" THEN RootExpr(c) ELSE NoTree,
                    IF n = "e1" THEN RootAttrs(c.ak)
                    ELSE IF n = "e2" THEN <<A("b1", T("e1"), FALSE), A("b2", T("STRING"), TRUE)>>
                    ELSE IF n = "e3" THEN <<A("c1", T("BOOLEAN"), FALSE)>> \o ExtraAttrs(c.ts)
@@ -123,7 +127,7 @@ Valid0(c) ==
                    ELSE IF n = "e5" THEN <<A("z1", T("INTEGER"), TRUE)>>
                    ELSE IF n = "h" THEN <<A("h1", T("e1"), FALSE), A("h2", T("r2"), FALSE), A("h3", Agg("LIST", 0, -1, "e1"), FALSE),
                                           A("h4", Agg("LIST", 0, -1, "r2"), TRUE)>>
-                   ELSE <<A("g1", T("REAL"), TRUE)>>))],
+                   ELSE <<A("g1", T("REAL"), TRUE)>>)))],
    funcs |-> IF c.rules THEN <<[name |-> "f1", nparams |-> 1]>> ELSE <<>>,
    aux |-> c.aux]
 TypeShapes(deep) == {[k |-> "aggs"]} \cup {[k |-> "chain", of |-> o, names |-> p] : o \in {"simple", "enum", "select", "enumsel"},
@@ -160,6 +164,7 @@ Rename(nm, s) ==
                                                       !.members = [j \in 1..Len(@) |-> NameMap(nm, @[j])], !.base = RenRef(nm, @)]],
             !.ents = [i \in 1..Len(@) |-> [@[i] EXCEPT !.name = NameMap(nm, @), !.supers = [j \in 1..Len(@) |-> NameMap(nm, @[j])],
                                                      !.sexpr = RenTree(nm, @),
+                                                     !.redecl = [j \in 1..Len(@) |-> [@[j] EXCEPT !.name = NameMap(nm, @), !.of = NameMap(nm, @), !.ty = RenRef(nm, @)]],
                                                      !.attrs = [j \in 1..Len(@) |-> [@[j] EXCEPT !.name = NameMap(nm, @), !.ty = RenRef(nm, @)]]]]]
 Valid(c) == IF "nm" \in DOMAIN c THEN Rename(c.nm, Valid0(c)) ELSE Valid0(c)
 Choices(deep) ==
@@ -169,6 +174,7 @@ Choices(deep) ==
      a \in (IF deep THEN BOOLEAN ELSE {FALSE}), k \in (IF deep THEN 1..3 ELSE {2, 3}), r \in BOOLEAN,
      x \in BOOLEAN}
   \cup {[inh |-> "chain", sx |-> "none", abs |-> FALSE, ak |-> 2, rules |-> FALSE, aux |-> FALSE, ts |-> t] : t \in TypeShapes(deep)}
+  \cup {[inh |-> "redecl", sx |-> "none", abs |-> FALSE, ak |-> k, rules |-> FALSE, aux |-> FALSE, ts |-> [k |-> "base"]] : k \in {2, 3}}
   \* a schema with exactly one entity (and the named types, among them aggregates): whatever the generators keep
   \* per "previous entity" or per "first entity" has only this one to work with
   \cup {[inh |-> "single", sx |-> "none", abs |-> FALSE, ak |-> k, rules |-> FALSE, aux |-> FALSE, ts |-> t] :
@@ -245,6 +251,7 @@ SubsOf(s, n) == {s.ents[i].name : i \in {j \in 1..Len(s.ents) : n \in Range(s.en
 DictEntity(s, e) == [name |-> e.name, abstract |-> e.abstract, supers |-> e.supers, subs |-> SubsOf(s, e.name),
                      attrs |-> [i \in 1..Len(e.attrs) |-> [name |-> e.attrs[i].name, opt |-> e.attrs[i].opt, ty |-> e.attrs[i].ty]],
                      derived |-> [i \in 1..Len(e.derive) |-> [name |-> e.derive[i].name, ty |-> e.derive[i].ty]],
+                     redeclared |-> [i \in 1..Len(e.redecl) |-> [name |-> e.redecl[i].name, of |-> e.redecl[i].of, ty |-> e.redecl[i].ty]],
                      inverse |-> [i \in 1..Len(e.inverse) |-> [name |-> e.inverse[i].name, ent |-> e.inverse[i].ent,
                                                                attr |-> e.inverse[i].attr, setof |-> e.inverse[i].setof]]]
 (* (former deviations of the generator, repaired in /repo: a renamed enumeration and a named aggregate of         *)
@@ -299,4 +306,13 @@ Ancestors(s, n) == LET e == EntByName(s, n) IN Range(e.supers) \cup UNION {Ances
 Dev_PyCtorRepeatsSharedAncestor(s, n) ==
   LET e == EntByName(s, n) IN
   \E i, j \in 1..Len(e.supers) : i # j /\ (Ancestors(s, e.supers[i]) \cup {e.supers[i]}) \cap (Ancestors(s, e.supers[j]) \cup {e.supers[j]}) # {}
+(* Dev_PyRedeclaredIsOwnParameter: a redeclared attribute (SELF\e2.b1 : e2) is generated like an attribute of the       *)
+(* redeclaring entity: the constructor takes it once more, after the inherited parameters and before the entity's own,  *)
+(* so the parameter list is not the Part 21 order.  PyRedeclParams predicts the exact list.                              *)
+Dev_PyRedeclaredIsOwnParameter(s, n) == Len(EntByName(s, n).redecl) > 0
+PyRedeclParams(s, n) == LET e == EntByName(s, n)
+                            o == AttrOrder(s, n)
+                            inh == SubSeq(o, 1, Len(o) - Len(e.attrs))
+                        IN [j \in 1..Len(inh) |-> PyName(inh[j].name)] \o [j \in 1..Len(e.redecl) |-> PyName(e.redecl[j].name)]
+                           \o [j \in 1..Len(e.attrs) |-> PyName(e.attrs[j].name)]
 =============================================================================
